@@ -568,11 +568,29 @@ def ids_rules(ctx, W):
                   'id recovery does not use the writer\'s %s (uses %s)' % (const, sorted(used)), b.site())
     pb = ctx.free_fn(R + '/parse_id_tag/anchor', 'mps::convert::parse_id_tag')
     if pb is not None:
-        sp = [c for c in pb.calls if c.item == 'strip_prefix']
-        ps = [c for c in pb.calls if c.item == 'parse' and 'u64' in c.name]
-        def strips(c): return T.access_path(pb, c.args[1])[1] == 1 and T.access_path(pb, c.args[0])[1] == 2
-        ok = bool(ps) and all(any(x.item == 'strip_prefix' and strips(x) for x in ctx.S.slice_operand(pb, c.args[0]).call_objs) for c in ps) and all(strips(c) for c in sp)
-        ctx.check(ok, R + '/parse_id_tag/strips-then-parses', 'T-CARRY', pb.name, 'id is not parsed from the name after the prefix', pb.site())
+        # decided on the returned value: with the prefix present the id is parse(<name after strip_prefix(prefix)>), without it None
+        # (`?`, and_then / map with a closure, match, if-let alike)
+        def strips(x): return x[0] == 'call' and x[1] == 'strip_prefix' and len(x[3]) == 2 and ('param', 2) in set(sx_walk(x[3][0])) and ('param', 1) in set(sx_walk(x[3][1]))
+        class Prefix(SxOracle):
+            def __init__(self, there): self.there = there
+            def variant(self, sx, v, st):
+                if v[0] == 'call' and v[1] == 'strip_prefix': return 'Some' if self.there else 'None'
+                if v[0] == 'call' and v[1] == 'parse': return 'Ok'
+                return None
+        ok = True; n = 0
+        for there in (True, False):
+            ps = sx_paths(ctx, R + '/parse_id_tag/strips-then-parses', 'T-CARRY', pb, Prefix(there))
+            if ps is None: ok = False; break
+            sx = Sx(ctx, pb, Prefix(there))
+            for p in ps:
+                if p.end != 'return' or p.value is None: continue
+                n += 1
+                if there:
+                    pcs = [c for c in sx_calls(p.value, 'parse') if 'u64' in c[2]]
+                    ok = ok and sx.variant(p.value, p) == 'Some' and bool(pcs) and all(c[3] and sx_strip(c[3][0])[0] == 'field' and sx_strip(c[3][0])[3] == 'payload' and strips(sx_strip(c[3][0])[1]) for c in pcs)
+                else:
+                    ok = ok and sx.variant(p.value, p) == 'None' and not p.calls('parse')
+        ctx.check(ok and n >= 2, R + '/parse_id_tag/strips-then-parses', 'T-CARRY', pb.name, 'id is not parsed from the name after the prefix (and only when the prefix is there)', pb.site())
 
 
 class SectionsWritten(SxOracle):
